@@ -39,7 +39,10 @@ import (
 // vfFlightScript rewrites the flights of one connection (keyed by its handshake config).
 type vfFlightScript struct {
 	Omit    map[handshake.Type]bool // drop these message types from every generated flight
-	applied int
+	// EditFinished, when set, replaces the verify_data of every Finished this connection generates (the record is
+	// still protected correctly: only the proof inside is wrong)
+	EditFinished func(verifyData []byte) []byte
+	applied      int
 	mu      sync.Mutex
 }
 
@@ -67,6 +70,20 @@ func vfInstallFilter() {
 }
 
 func (sc *vfFlightScript) apply(isClient bool, state, cache any, pkts []*dtlsflight.Packet) []*dtlsflight.Packet {
+	if sc.EditFinished != nil {
+		for _, p := range pkts {
+			if h, ok := p.Record.Content.(*handshake.Handshake); ok {
+				if f, ok := h.Message.(*handshake.MessageFinished); ok {
+					f.VerifyData = sc.EditFinished(append([]byte(nil), f.VerifyData...))
+					sc.mu.Lock()
+					sc.applied++
+					sc.mu.Unlock()
+				}
+			}
+		}
+
+		return pkts
+	}
 	var out []*dtlsflight.Packet
 	changed := false
 	for _, p := range pkts {
